@@ -17,6 +17,8 @@ Encoding: bytes in hex, `-` = empty byte string; entry lists `e,e,...` with `~` 
   sub                              -> `ok` | `NOTSUB`                  (last accepted tree ⊑ model tree)
   get K                            -> `val V` | `absent` | `unresolved` (lookup on the last accepted tree)
   proofget V SIB K                 -> `proof UNTRUSTED ENTRIES`        (SyncGet positioned at the root)
+  proofiter V PREFETCH K           -> `proof UNTRUSTED ENTRIES`        (SyncIterate)
+  proofprefixes V LIMIT P1,P2,...  -> `proof UNTRUSTED ENTRIES`        (SyncGetPrefixes)
   buildincl V HASHES               -> `proof UNTRUSTED ENTRIES`        (ProofBuilder.Build for an arbitrary included set)
   depth                            -> `depth N`                        (deepest pointer of the tree)
   chunks SIZE                      -> `chunks N ENTRIES|ENTRIES|...`   (sequential chunker, V0 proofs)
@@ -101,6 +103,20 @@ def step (st : St) (line : String) : St × String :=
     | some v, some sib, some k =>
       let (st, h) := st.htrie
       let p := proofGet (sha []) v (sib != 0) k h
+      (st, "proof " ++ showHex p.untrusted ++ " " ++ showEntries p.entries)
+    | _, _, _ => (st, "ERR parse")
+  | ["proofiter", v, pre, k] =>
+    match v.toNat?, pre.toNat?, parseHex k with
+    | some v, some pre, some k =>
+      let (st, h) := st.htrie
+      let p := proofIterate (sha []) v k pre h
+      (st, "proof " ++ showHex p.untrusted ++ " " ++ showEntries p.entries)
+    | _, _, _ => (st, "ERR parse")
+  | ["proofprefixes", v, limit, ps] =>
+    match v.toNat?, limit.toNat?, (ps.splitOn ",").mapM parseHex with
+    | some v, some limit, some ps =>
+      let (st, h) := st.htrie
+      let p := proofPrefixes (sha []) v ps limit h
       (st, "proof " ++ showHex p.untrusted ++ " " ++ showEntries p.entries)
     | _, _, _ => (st, "ERR parse")
   | ["buildincl", v, hs] =>
